@@ -3,15 +3,19 @@ from engine.h4v import H, libhdf_units, libmfhdf_units
 
 META = dict(
     bounds=["S1: 5 Vdata/field attributes + 3 Vgroup attributes, 3 GR file / image attributes (6 number types, counts 1..4, names incl. a prefix-duplicate and equal names on "
-            "different fields); replace, refused retype/recount, reopen in read and write mode; all value bytes symbolic"],
+            "different fields); replace, refused retype/recount, reopen in read and write mode; all value bytes symbolic",
+            "S2 (real mfhdf): one SD session; 4 user attributes each on the file, a dataset and a dimension (prefix-duplicate names), replacement with the same and with another "
+            "type/count; fill value, valid range, calibration, data strings, dimension name / scale / strings; name<->index<->ref lookups; all values symbolic"],
     stubs=["stdio = models/memio.c", "error stack = codes only", "malloc never fails", "sprintf model (E9)"],
-    outside=["SD attributes and predefined SD metadata (mfhdf; see DESIGN.md on the SD whole-stack status)", "counts > 4"],
+    outside=["SD attributes across SDend/SDstart (the mfhdf reopen path does not finish under symbolic execution; DESIGN.md)", "counts > 4"],
     manifest=dict(
         level="Bounded model checking (CBMC/SAT) of the whole real libhdf (vattr.c, mfgr.c over V/H layers) on memio: for the concrete attribute histories the solver decides "
               "for ALL value bytes that type, count, size, name and values come back by index and by name, that a replacement keeps index and all other attributes, that a "
-              "type/count change on Vdata/Vgroup attributes is refused leaving the old value, and that everything survives close and reopen.",
-        note="Trusted: memio, codes-only error stack, H4_VERIF hook, CBMC 6.11. The SD-level clauses of C10 are not decided by this check.",
-        technique="CBMC bounded model checking of real vattr.c/mfgr.c attribute code (whole libhdf); symbolic values, concrete history"),
+              "type/count change on Vdata/Vgroup attributes is refused leaving the old value, and that everything survives close and reopen; (S2) real mfhdf attribute and predefined-metadata code within one SD session: user attributes on "
+              "file/dataset/dimension and fill value / range / calibration / strings / dimension name, scale and strings read back exactly what was set, a re-set replaces "
+              "in place, the lookups name<->index<->ref agree.",
+        note="Trusted: memio, codes-only error stack, H4_VERIF hook, CBMC 6.11. SD attributes are decided within one SD session only (persistence across SDend/SDstart is outside).",
+        technique="CBMC bounded model checking of real vattr.c/mfgr.c and mfhdf attr.c/mfsd.c attribute code (whole libhdf + mfhdf); symbolic values, concrete history"),
 )
 
 def plan(ctx, tier, seed):
